@@ -1092,6 +1092,43 @@ func runC14(c C14Case, cs *kit.CaseStats) error {
 			}
 			L = nl
 			cs.Class("mined")
+			// the very first pool access after the tip changed is a look-up by
+			// id (both calls) of everything that was pooled before: what it
+			// reports as present must be listed by the listing taken right after
+			// (a look-up must not serve what the tip change removed)
+			if oi%2 == 0 {
+				var hit1, hit2 []types.TransactionID
+				for _, t := range before.v1 {
+					if _, ok := node.CM.PoolTransaction(t.ID()); ok {
+						hit1 = append(hit1, t.ID())
+					}
+					if _, ok := node.CM.V2PoolTransaction(t.ID()); ok {
+						return fmt.Errorf("%s: V2PoolTransaction(%v) returns a transaction for the id of a v1 transaction", where, t.ID())
+					}
+				}
+				for _, t := range before.v2 {
+					if _, ok := node.CM.V2PoolTransaction(t.ID()); ok {
+						hit2 = append(hit2, t.ID())
+					}
+					if _, ok := node.CM.PoolTransaction(t.ID()); ok {
+						return fmt.Errorf("%s: PoolTransaction(%v) returns a transaction for the id of a v2 transaction", where, t.ID())
+					}
+				}
+				after := viewPool(node)
+				for _, id := range hit1 {
+					if _, ok := after.ids1[id]; !ok {
+						return fmt.Errorf("%s: right after the block (first pool access) PoolTransaction(%v) still returned the transaction, the listing taken next does not hold it (confirmed by the block: %v)", where, id, containsID(confirmed, id))
+					}
+				}
+				for _, id := range hit2 {
+					if _, ok := after.ids2[id]; !ok {
+						return fmt.Errorf("%s: right after the block (first pool access) V2PoolTransaction(%v) still returned the transaction, the listing taken next does not hold it (confirmed by the block: %v)", where, id, containsID(confirmed, id))
+					}
+				}
+				if len(before.v1)+len(before.v2) > 0 {
+					cs.Class("lookup-by-id-is-the-first-access-after-a-block")
+				}
+			}
 		}
 	}
 	cs.Classf("regime=%d", c.Regime)
@@ -1136,3 +1173,12 @@ var c14Prop = kit.Prop[C14Case]{
 }
 
 func TestC14(t *testing.T) { c14Prop.Main(t) }
+
+func containsID(ids []types.TransactionID, id types.TransactionID) bool {
+	for _, x := range ids {
+		if x == id {
+			return true
+		}
+	}
+	return false
+}
